@@ -11,6 +11,8 @@ Case forms
 Value specs (plain data): ["int",n] ["big",k] ["float",s] ["str",s] ["bytes",hex] ["bool",b] ["none"]
   ["list",[..]] ["dict",[[k,v],..]] ["tuple",[..]] ["set",[scalars]] ["fset",[scalars]]
   ["ref",i] (i-th graph object: vertices, then links) ["shared",k] (k-th shared container)
+  ["odict",[[i,scalar],..]] dict keyed by graph objects  ["oset",[i,..]] set of graph objects
+  ["huge",kind,n,ch] str/bytes/bytearray payload around / above 64 KiB
 """
 import io
 import pickle
@@ -30,7 +32,7 @@ RULE = (
     "Worlds built by generated histories (cycles, self-loops, parallel links, None ends, 0-3 universes incl. nested "
     "and self-member, importable Vertex/edge subclasses, law sets with whitelists), with runtime attributes on "
     "vertices, links and universes drawn from scalars (ints incl. > 2^63, floats incl. nan/inf/-0.0, str, bytes, "
-    "bool, None), lists/dicts/tuples/sets nested to depth 3, references to graph objects and a pool of SHARED "
+    "bool, None, str/bytes/bytearray payloads above 64 KiB), lists/dicts/tuples/sets nested to depth 3, dicts keyed by / sets of graph objects, references to graph objects and a pool of SHARED "
     "containers attached to several holders; warm neighbor caches; root in {universe, vertex, link, list of "
     "everything, dict}; protocols 0..5; dumps vs dump(file); loader pickle or dill; caching flag on/off at dump and "
     "at load.  Oracle: canonical(copy) == canonical(original) (classes by qualified name, uids, attribute names "
@@ -46,7 +48,7 @@ RULE = (
 ASSUMPTIONS = [
     "classes used by cases are importable (eglib.classes), as pickle requires",
     "while known finding " + KF1 + " is open, tuples/frozensets that hold object references are generated single-referenced only (excluded cases are counted)",
-    "sets hold scalars only (their iteration order is not part of the contract)",
+    "sets hold scalars or graph objects; object-bearing sets are canonicalised by the members' uids (iteration order is not part of the contract)",
     "the size axis is capped near 3*10^3 vertices by the pickler's quadratic cost; depth is scaled by lowering the recursion limit instead",
 ]
 LEVEL_TEXT = (
@@ -80,6 +82,10 @@ _leaves = st.one_of(
     _scalars,
     st.builds(lambda i: ["ref", i], st.integers(0, 15)),
     st.builds(lambda k: ["shared", k], st.integers(0, 3)),
+    # containers HASHED by graph objects (dict keys / set elements), and payloads above pickle's 64 KiB framing threshold
+    st.builds(lambda kv: ["odict", [[k, v] for k, v in kv]], st.lists(st.tuples(st.integers(0, 15), _scalars), min_size=1, max_size=3)),
+    st.builds(lambda xs: ["oset", xs], st.lists(st.integers(0, 15), min_size=1, max_size=3)),
+    st.builds(lambda kind, n, ch: ["huge", kind, n, ch], st.sampled_from(["str", "bytes", "bytearray"]), st.integers(0, 70000), st.integers(0, 255)),
 )
 _values = st.recursive(
     _leaves,
@@ -135,6 +141,7 @@ class Builder:
         self.excluded = 0
         self.has_shared_use = 0
         self.multi_tuple = False
+        self.huge = False
 
     def build(self):
         from edgegraph.structure import DirectedEdge, Universe, Vertex
@@ -171,7 +178,7 @@ class Builder:
         return w
 
     def _has_ref(self, spec):
-        if spec[0] == "ref":
+        if spec[0] in ("ref", "odict", "oset"):
             return True
         if spec[0] in ("list", "tuple"):
             return any(self._has_ref(s) for s in spec[1])
@@ -216,6 +223,18 @@ class Builder:
                 if sspec[0] == "tuple" and self._has_ref(sspec):
                     self.multi_tuple = True
             return self.shared_objs[k]
+        if t == "odict":
+            return {self.objs[k % len(self.objs)]: self.value(v, depth + 1, in_shared) for k, v in spec[1]}
+        if t == "oset":
+            return {self.objs[k % len(self.objs)] for k in spec[1]}
+        if t == "huge":
+            n = 65536 + spec[2] if spec[2] % 3 else spec[2]   # two thirds at or above 64 KiB
+            self.huge = True
+            if spec[1] == "str":
+                return chr(65 + spec[3] % 26) * n
+            if spec[1] == "bytes":
+                return bytes([spec[3]]) * n
+            return bytearray([spec[3]]) * n
         if t == "list":
             return [self.value(s, depth + 1, in_shared) for s in spec[1]]
         if t == "tuple":
@@ -360,6 +379,10 @@ def check_world(case):
         classes.append(">=2-universes")
     if b.excluded:
         classes.append("kf1-sharing-suppressed")
+    if b.huge:
+        classes.append("payload>=64KiB")
+    if any(sp and sp[0] in ("odict", "oset") for _h, _n, sp in case.get("attrs", [])):
+        classes.append("container-hashed-by-graph-objects")
     return dict(nt=nt, classes=classes, excluded=b.excluded)
 
 
